@@ -143,10 +143,10 @@ def unpackCoils (bytes : Bytes) (count : UInt16) (coils : List Bool) : Res (List
   if coils.length < count.toNat ∨ bytes.length < packedCoilsLen count.toNat then .err .bufferSize
   else (unpackLoop bytes count.toNat 0 []).map (fun bs => bs ++ coils.drop count.toNat)
 
-/-- `Coils::from_bools(bools, target)`; the value keeps the whole target slice -/
+/-- `Coils::from_bools(bools, target)`; the value keeps the packed bytes only: `&target[..packed_len]` -/
 def Coils.fromBools (bools : List Bool) (target : Bytes) : Res Coils :=
   if bools.isEmpty then .err .bufferSize
-  else (packCoils bools target).map (fun r => { data := r.2, quantity := bools.length })
+  else (packCoils bools target).map (fun r => { data := r.2.take r.1, quantity := bools.length })
 
 def Coils.len (c : Coils) : Nat := c.quantity
 def Coils.packedLen (c : Coils) : Nat := packedCoilsLen c.quantity
@@ -171,10 +171,19 @@ def Coils.iterFrom (c : Coils) : Nat → Nat → List Bool → Res (List Bool)
 
 def Coils.iter (c : Coils) : Res (List Bool) := c.iterFrom (c.quantity + 1) 0 []
 
-/-- `Coils::copy_to(buf)`: `debug_assert!(buf.len() >= packed_len)`, then `buf[i] = self.data[i]`.
+/-- `x & ((1 << k) - 1)`: the low `k` bits of a byte -/
+def maskLow (x : UInt8) (k : Nat) : UInt8 := UInt8.ofNat (x.toNat % 2 ^ k)
+
+/-- `buf[len - 1] &= (1 << used) - 1` on the copied bytes -/
+def maskLastByte (raw : Bytes) (used : Nat) : Bytes :=
+  raw.take (raw.length - 1) ++ (raw.drop (raw.length - 1)).map (fun x => maskLow x used)
+
+/-- `Coils::copy_to(buf)` (after the copy the unused bits of the last byte are cleared): `debug_assert!(buf.len() >= packed_len)`, then `buf[i] = self.data[i]`.
     Returns the bytes to be stored (the store itself is a `writeAt`). -/
 def Coils.copyBytes (c : Coils) : Res Bytes :=
-  if c.data.length < c.packedLen then .panic else .ok (c.data.take c.packedLen)
+  if c.data.length < c.packedLen then .panic else
+  let raw := c.data.take c.packedLen
+  if c.quantity % 8 = 0 then .ok raw else .ok (maskLastByte raw (c.quantity % 8))
 
 /-! ### Data (frame/data.rs) -/
 
